@@ -19,7 +19,7 @@ Step ==
   /\ LET e == Ev(tid)[l] IN
        CASE e.ev = "Begin" -> Begin(e.c)
          [] e.ev = "Month" -> Month(e)
-         [] e.ev = "Finish" -> Finish(e.n)
+         [] e.ev = "Finish" -> Finish(e.n, e.z)
   /\ l' = l + 1
   /\ UNCHANGED tid
 
